@@ -374,12 +374,22 @@ func (e QExpect) OrderViolation(list []QBug) string {
 				return -1
 			case a.CreateLamport > b.CreateLamport:
 				return 1
+			// equal logical times mean concurrent creation: the creation timestamp decides (the key of the
+			// creation sort is (logical time, timestamp)); equal on both is unconstrained
+			case a.CreateUnix < b.CreateUnix:
+				return -1
+			case a.CreateUnix > b.CreateUnix:
+				return 1
 			}
 		case "edit":
 			switch {
 			case a.EditLamport < b.EditLamport:
 				return -1
 			case a.EditLamport > b.EditLamport:
+				return 1
+			case a.EditUnix < b.EditUnix:
+				return -1
+			case a.EditUnix > b.EditUnix:
 				return 1
 			}
 		}
